@@ -733,6 +733,7 @@ func (t *Tree) Compile(file string, args []string, out io.Writer) (err error) {
 				consumes = true
 				properties := make([]struct {
 					intersects bool
+					consumes   bool
 					s          *set.Set
 				}, n.Len())
 
@@ -740,11 +741,25 @@ func (t *Tree) Compile(file string, args []string, out io.Writer) (err error) {
 					properties[i].s = set.NewSet()
 				}
 				for i, element := range n.Iterator2() {
-					consumes, properties[i].s = optimizeAlternates(element)
+					properties[i].consumes, properties[i].s = optimizeAlternates(element)
+					/* the choice consumes only if every alternative does */
+					consumes = consumes && properties[i].consumes
 					s = s.Union(properties[i].s)
 				}
 
 				if firstPass {
+					break
+				}
+
+				/* an alternative which can succeed without consuming can't be
+				   selected by the next character: if it isn't the last one the
+				   choice is left alone, the last one is kept behind the switch */
+				last := len(properties) - 1
+				nullable := false
+				for _, property := range properties[:last] {
+					nullable = nullable || !property.consumes
+				}
+				if nullable {
 					break
 				}
 
@@ -765,9 +780,12 @@ func (t *Tree) Compile(file string, args []string, out io.Writer) (err error) {
 				unordered := &node{Type: TypeUnorderedAlternate}
 				ordered := &node{Type: TypeAlternate}
 				maxVal := 0
+				var tail *node
 				for i, element := range n.Iterator2() {
 					if properties[i].intersects {
 						ordered.PushBack(element.Copy())
+					} else if i == last && !properties[i].consumes {
+						tail = element.Copy()
 					} else {
 						class := &node{Type: TypeUnorderedAlternate}
 						for d := range unicode.MaxRune {
@@ -797,7 +815,7 @@ func (t *Tree) Compile(file string, args []string, out io.Writer) (err error) {
 					}
 				}
 				n.Init()
-				if ordered.Front() == nil {
+				if ordered.Front() == nil && tail == nil {
 					n.SetType(TypeUnorderedAlternate)
 					for element := range unordered.Iterator() {
 						n.PushBack(element.Copy())
@@ -807,6 +825,9 @@ func (t *Tree) Compile(file string, args []string, out io.Writer) (err error) {
 						n.PushBack(element.Copy())
 					}
 					n.PushBack(unordered)
+					if tail != nil {
+						n.PushBack(tail)
+					}
 				}
 			case TypeSequence:
 				classes := make([]struct {
